@@ -1,77 +1,7 @@
 use vstd::prelude::*;
 use core::num::NonZeroU32;
 verus! {
-//@include prelude.rs
-//@include from_u32.rs
-//@include ghost_ser.rs
-
-//@trait src/serializer.rs Serializable
-    // ---- ghost additions: the byte-level contract every implementation is held to ----
-    spec fn ser_spec(&self) -> Seq<u8>;
-    spec fn nbytes() -> nat;
-    proof fn lemma_ser_len(&self)
-        ensures self.ser_spec().len() == Self::nbytes();
-    // size sanity of the implementation (true for all built-in types); surfaces as a precondition of serialize()
-    spec fn width_ok() -> bool;
-//@fn serialize_to_vec
-//@head{
-        ensures final(dst)@ == old(dst)@ + self.ser_spec()
-//@}
-//@fn deserialize_from_slice
-//@ret r
-//@head{
-        requires src@.len() >= Self::nbytes()
-        ensures r.1@ == src@.skip(Self::nbytes() as int),
-            forall|x: Self| src@.take(Self::nbytes() as int) == x.ser_spec() ==> r.0 == x
-//@}
-//@fn serialized_bytes
-//@ret r
-//@head{
-        requires Self::width_ok()
-        ensures r == Self::nbytes()
-//@}
-//@endtrait
-
-// u32: macro-generated impl (define_serializable_primitive!(u32, 4)); contract assumed here, proved complete
-// on the real code by the Kani harness ser_u32 (full domain, loop-free)
-impl Serializable for u32 {
-    spec fn ser_spec(&self) -> Seq<u8> { le_u32(*self) }
-    spec fn nbytes() -> nat { 4 }
-    spec fn width_ok() -> bool { true }
-    proof fn lemma_ser_len(&self) {}
-    #[verifier::external_body]
-    fn serialize_to_vec(&self, dst: &mut Vec<u8>) { dst.extend_from_slice(&self.to_le_bytes()); }
-    #[verifier::external_body]
-    fn deserialize_from_slice(src: &[u8]) -> (r: (Self, &[u8])) { let x = Self::from_le_bytes(src[..4].try_into().unwrap()); (x, &src[4..]) }
-    #[verifier::external_body]
-    fn serialized_bytes() -> (r: usize) { 4 }
-}
-
-//@impl src/serializer.rs impl Serializable for Option<NonZeroU32>
-//@keeptrait
-    spec fn ser_spec(&self) -> Seq<u8> { le_u32(match *self { None => 0u32, Some(x) => x@ }) }
-    spec fn nbytes() -> nat { 4 }
-    spec fn width_ok() -> bool { true }
-    proof fn lemma_ser_len(&self) {}
-//@fn serialize_to_vec
-//@fn deserialize_from_slice
-//@ret r
-//@start{
-    let ghost src0 = src@;
-//@}
-//@before 1 (NonZeroU32::new(x), src){
-    proof {
-        assert forall|o: Option<NonZeroU32>| src0.take(4) == o.ser_spec() implies x == (match o { None => 0u32, Some(v) => v@ }) by {
-            let y: u32 = match o { None => 0u32, Some(v) => v@ };
-            assert(y.ser_spec() == o.ser_spec());
-        }
-        assert forall|a: NonZeroU32, b: NonZeroU32| a@ == b@ implies a == b by { lemma_nz_ext(a, b); }
-    }
-//@}
-//@fn serialized_bytes
-//@ret r
-//@endimpl
-
+//@include parts/ser_a.tpl
 
 //@item src/intpack.rs struct U24nU8
 //@impl src/intpack.rs impl Serializable for U24nU8
@@ -95,45 +25,7 @@ impl Serializable for u32 {
 //@ret r
 //@endimpl
 
-//@item src/lib.rs enum MatchKind
-//@rules keeppub
-//@end
-pub open spec fn mk_u8(k: MatchKind) -> u8 { match k { MatchKind::Standard => 0, MatchKind::LeftmostLongest => 1, MatchKind::LeftmostFirst => 2 } }
-pub open spec fn u8_mk(src: u8) -> MatchKind { if src == 1 { MatchKind::LeftmostLongest } else if src == 2 { MatchKind::LeftmostFirst } else { MatchKind::Standard } }
-impl vstd::std_specs::convert::FromSpecImpl<u8> for MatchKind {
-    open spec fn obeys_from_spec() -> bool { true }
-    open spec fn from_spec(src: u8) -> MatchKind { u8_mk(src) }
-}
-impl vstd::std_specs::convert::FromSpecImpl<MatchKind> for u8 {
-    open spec fn obeys_from_spec() -> bool { true }
-    open spec fn from_spec(src: MatchKind) -> u8 { mk_u8(src) }
-}
-//@impl src/lib.rs impl From<u8> for MatchKind
-//@keeptrait
-//@fn from
-//@endimpl
-//@impl src/lib.rs impl From<MatchKind> for u8
-//@keeptrait
-//@fn from
-//@endimpl
-//@impl src/lib.rs impl Serializable for MatchKind
-//@keeptrait
-    spec fn ser_spec(&self) -> Seq<u8> { seq![mk_u8(*self)] }
-    spec fn nbytes() -> nat { 1 }
-    spec fn width_ok() -> bool { true }
-    proof fn lemma_ser_len(&self) {}
-//@fn serialize_to_vec
-//@fn deserialize_from_slice
-//@ret r
-//@start{
-    proof {
-        assert forall|o: MatchKind| src@.take(1) == o.ser_spec() implies src@[0] == mk_u8(o) by { assert(src@.take(1)[0] == o.ser_spec()[0]); }
-    }
-//@}
-//@fn serialized_bytes
-//@ret r
-//@endimpl
-
+//@include parts/ser_mk.tpl
 //@item src/bytewise.rs struct State
 //@impl src/bytewise.rs impl Serializable for State
 //@keeptrait
@@ -168,162 +60,8 @@ impl vstd::std_specs::convert::FromSpecImpl<MatchKind> for u8 {
 //@ret r
 //@endimpl
 
-//@item src/lib.rs struct Output
-//@impl src/lib.rs Serializable for Output<V>
-//@keeptrait
-    spec fn ser_spec(&self) -> Seq<u8> { self.value.ser_spec() + self.length.ser_spec() + self.parent.ser_spec() }
-    spec fn nbytes() -> nat { V::nbytes() + 8 }
-    spec fn width_ok() -> bool { V::width_ok() && V::nbytes() < 0x1000_0000 }
-    proof fn lemma_ser_len(&self) { self.value.lemma_ser_len(); }
-//@fn serialize_to_vec
-//@start{
-    let ghost d0 = dst@;
-//@}
-//@after 1 self.parent.serialize_to_vec(dst);{
-    proof { assert(dst@ =~= d0 + self.ser_spec()); }
-//@}
-//@fn deserialize_from_slice
-//@ret r
-//@start{
-    let ghost src0 = src@;
-    let ghost n = V::nbytes() as int;
-//@}
-//@before 1 Self {{
-    proof {
-        assert forall|o: Output<V>| src0.take(n + 8) == o.ser_spec() implies value == o.value && length == o.length && parent == o.parent by {
-            let s = o.ser_spec();
-            o.value.lemma_ser_len();
-            assert(src0.take(n) =~= s.take(n) && s.take(n) =~= o.value.ser_spec());
-            assert(src0.skip(n).take(4) =~= s.skip(n).take(4) && s.skip(n).take(4) =~= o.length.ser_spec());
-            assert(src0.skip(n).skip(4).take(4) =~= s.skip(n + 4).take(4) && s.skip(n + 4).take(4) =~= o.parent.ser_spec());
-        }
-        assert(src@ =~= src0.skip(n + 8));
-    }
-//@}
-//@fn serialized_bytes
-//@ret r
-//@endimpl
-
-//@trait src/serializer.rs SerializableVec
-    // ---- ghost additions ----
-    spec fn vser_spec(&self) -> Seq<u8>;
-    spec fn vvalid(&self) -> bool;              // within the documented size limits (lengths fit u32)
-    spec fn veq(&self, other: &Self) -> bool;   // equality of contents
-//@fn serialize_to_vec
-//@head{
-        requires self.vvalid()
-        ensures final(dst)@ == old(dst)@ + self.vser_spec()
-//@}
-//@fn deserialize_from_slice
-//@ret r
-//@head{
-        requires exists|x: Self, t: Seq<u8>| x.vvalid() && src@ == x.vser_spec() + t
-        ensures forall|x: Self, t: Seq<u8>| x.vvalid() && src@ == x.vser_spec() + t ==> r.0.veq(&x) && r.1@ == t && r.0.vvalid()
-//@}
-//@fn serialized_bytes
-//@ret r
-//@head{
-        requires self.vvalid()
-        ensures r == self.vser_spec().len()
-//@}
-//@endtrait
-
-//@impl src/serializer.rs SerializableVec for Vec<S>
-//@keeptrait
-    spec fn vser_spec(&self) -> Seq<u8> { le_u32(self@.len() as u32) + ser_seq(self@) }
-    spec fn vvalid(&self) -> bool { self@.len() <= u32::MAX && S::width_ok() && self@.len() * S::nbytes() + 4 <= usize::MAX }
-    spec fn veq(&self, other: &Self) -> bool { self@ == other@ }
-//@fn serialize_to_vec
-//@rules R6
-//@start{
-    let ghost d0 = dst@;
-//@}
-//@loopiter 1 it
-//@loop 1{
-        invariant dst@ =~= d0 + le_u32(self@.len() as u32) + ser_seq(self@.take(it.index@ as int)),
-//@}
-//@after 1 x.serialize_to_vec(dst);{
-        proof {
-            let k = it.index@ as int;
-            assert(self@.take(k + 1) =~= self@.take(k).push(*x));
-            lemma_ser_seq_push(self@.take(k), *x);
-        }
-//@}
-//@before 1 for x in{
-    proof { assert(self@.take(0) =~= Seq::<S>::empty()); }
-//@}
-//@after 1 for x in{
-    proof { assert(self@.take(self@.len() as int) =~= self@); }
-//@}
-//@fn deserialize_from_slice
-//@ret r
-//@start{
-    let ghost src0 = src@;
-//@}
-//@loopiter 1 it
-//@loop 1{
-        invariant
-            forall|x: Vec<S>, t: Seq<u8>| x.vvalid() && src0 == x.vser_spec() + t ==>
-                x@.len() == len && dst@ == x@.take(it.index@ as int) && src@ == ser_seq(x@.skip(it.index@ as int)) + t,
-            exists|x: Vec<S>, t: Seq<u8>| x.vvalid() && src0 == x.vser_spec() + t,
-//@}
-//@before 1 let mut dst = Self::with_capacity{
-    proof {
-        assert forall|x: Vec<S>, t: Seq<u8>| x.vvalid() && src0 == x.vser_spec() + t implies
-            x@.len() == len && src@ == ser_seq(x@.skip(0)) + t by {
-            let y = x@.len() as u32;
-            assert(src0.take(4) =~= y.ser_spec());
-            assert(x@.skip(0) =~= x@);
-            assert(src0.skip(4) =~= ser_seq(x@) + t);
-        }
-    }
-//@}
-//@before 1 let (x, rest) = S::deserialize_from_slice(src);{
-    let ghost sb = src@;
-    let ghost db = dst@;
-    let ghost i = it.index@ as int;
-    proof {
-        let (x0, t0) = choose|x: Vec<S>, t: Seq<u8>| x.vvalid() && src0 == x.vser_spec() + t;
-        assert(x0@.skip(i).len() > 0);
-        x0@[i].lemma_ser_len();
-        assert(ser_seq(x0@.skip(i)) == x0@.skip(i)[0].ser_spec() + ser_seq(x0@.skip(i).skip(1)));
-    }
-//@}
-//@after 1 src = rest;{
-    proof {
-        let n = S::nbytes() as int;
-        assert forall|x: Vec<S>, t: Seq<u8>| x.vvalid() && src0 == x.vser_spec() + t implies
-            x@.len() == len && dst@ == x@.take(i + 1) && src@ == ser_seq(x@.skip(i + 1)) + t by {
-            let xs = x@.skip(i);
-            assert(xs.len() > 0);
-            x@[i].lemma_ser_len();
-            assert(ser_seq(xs) == xs[0].ser_spec() + ser_seq(xs.skip(1)));
-            assert(sb.take(n) =~= x@[i].ser_spec());
-            assert(xs.skip(1) =~= x@.skip(i + 1));
-            assert(x@.take(i + 1) =~= x@.take(i).push(x@[i]));
-            assert(sb.skip(n) =~= ser_seq(x@.skip(i + 1)) + t);
-        }
-    }
-//@}
-//@before 1 (dst, src){
-    proof {
-        assert forall|x: Vec<S>, t: Seq<u8>| x.vvalid() && src0 == x.vser_spec() + t implies dst@ == x@ && src@ == t by {
-            assert(x@.take(len as int) =~= x@);
-            assert(x@.skip(len as int) =~= Seq::<S>::empty());
-            assert(ser_seq(x@.skip(len as int)) + t =~= t);
-        }
-    }
-//@}
-//@fn serialized_bytes
-//@ret r
-//@start{
-    proof {
-        lemma_ser_seq_len(self@);
-        assert(S::nbytes() * self@.len() == self@.len() * S::nbytes()) by (nonlinear_arith);
-    }
-//@}
-//@endimpl
-
+//@include parts/ser_out.tpl
+//@include parts/ser_vec.tpl
 //@item src/bytewise.rs struct DoubleArrayAhoCorasick
 
 spec fn pma_valid<V: Serializable>(a: DoubleArrayAhoCorasick<V>) -> bool {
@@ -455,3 +193,4 @@ fn c09_round_trip<V: Serializable>(a: &DoubleArrayAhoCorasick<V>, tail: &Vec<u8>
 }
 } // verus!
 fn main() {}
+
